@@ -13,18 +13,19 @@ import (
 )
 
 type Frame struct {
-	fn      *ssa.Function
-	regs    map[ssa.Value]Val
-	caller  *Frame
-	retBlk  *ssa.BasicBlock
-	retIdx  int
-	callVal ssa.Value
-	defers  []deferRec
-	depth   int
-	free    []Val // bindings of free variables (closures)
-	results []Val
-	locals  map[string]Val // source-level variable name -> current value (top frame only)
-	localT  map[string]types.Type
+	fn        *ssa.Function
+	regs      map[ssa.Value]Val
+	caller    *Frame
+	retBlk    *ssa.BasicBlock
+	retIdx    int
+	callVal   ssa.Value
+	defers    []deferRec
+	depth     int
+	free      []Val // bindings of free variables (closures)
+	results   []Val
+	locals    map[string]Val // source-level variable name -> current value (top frame only)
+	localT    map[string]types.Type
+	localAddr map[string]SV // address-taken locals: pointer to the cell
 }
 
 type deferRec struct {
@@ -51,6 +52,12 @@ func (f *Frame) clone() *Frame {
 		n.localT = make(map[string]types.Type, len(f.localT))
 		for k, v := range f.localT {
 			n.localT[k] = v
+		}
+		if f.localAddr != nil {
+			n.localAddr = make(map[string]SV, len(f.localAddr))
+			for k, v := range f.localAddr {
+				n.localAddr[k] = v
+			}
 		}
 	}
 	n.caller = f.caller.clone()
